@@ -17,5 +17,21 @@ func init() {
 		directed{"in_sender", "btc", []string{"start", "in_agreement", "cancel", "coop"}},
 		directed{"in_sender", "lbtc", []string{"start", "timeout"}},
 		directed{"out_sender", "lbtc", []string{"start", "timeout"}},
+		// faults whose error texts travel in the cancel message: the wallet cannot create the opening transaction
+		// (the maker has just drawn the claim preimage), the height lookup fails, the coop_close or the first
+		// message of the step cannot be delivered and the cancel that follows can
+		directed{"out_receiver", "btc", []string{"request", "opening=fail:paid_fee"}},
+		directed{"out_receiver", "lbtc", []string{"request", "opening=fail:paid_fee"}},
+		directed{"in_sender", "lbtc", []string{"start", "opening=fail:in_agreement"}},
+		directed{"in_sender", "btc", []string{"start", "opening=fail:in_agreement"}},
+		directed{"out_receiver", "btc", []string{"request", "height=fail:paid_fee"}},
+		directed{"out_sender", "btc", []string{"start", "out_agreement", "send=fail:cancel"}},
+		directed{"out_sender", "lbtc", []string{"start", "out_agreement", "otb", "send=fail:cancel"}},
+		directed{"out_sender", "lbtc", []string{"start", "out_agreement", "otb", "tip=anchor+61", "send=fail:tx_confirmed"}},
+		directed{"in_receiver", "btc", []string{"request", "otb", "send=fail:cancel"}},
+		directed{"in_receiver", "lbtc", []string{"request", "send=fail:timeout"}},
+		directed{"in_receiver", "btc", []string{"request", "otb", "send=fail:timeout"}},
+		directed{"out_sender", "btc", []string{"height=fail:start"}},
+		directed{"in_receiver", "lbtc", []string{"height=fail:request"}},
 	)
 }
